@@ -5570,10 +5570,13 @@ class PropertyMetaCommand(PointerMetaCommand[s_props.Property]):
         context: sd.CommandContext,
     ) -> None:
         if types.has_table(source, schema):
+            # N.B: where the property *was* stored is what matters here
+            # (as in _delete_link): a single property that is being
+            # turned into a multi computed one lives in the source table.
             ptr_stor_info = types.get_pointer_storage_info(
                 prop,
-                schema=schema,
-                link_bias=prop.is_link_property(schema),
+                schema=orig_schema,
+                link_bias=prop.is_link_property(orig_schema),
             )
 
             if (
